@@ -338,7 +338,7 @@ def _canon_loop_unpack(tree):
         for x in ast.walk(fn):
             if isinstance(x, ast.Name) and isinstance(x.ctx, ast.Load):
                 loads[x.id] = loads.get(x.id, 0) + 1
-        for lp in [n for n in ast.walk(fn) if isinstance(n, (ast.For, ast.AsyncFor))]:
+        for lp in [n for n in ast.walk(fn) if isinstance(n, (ast.For, ast.AsyncFor))] * 3:       # several leading unpackings move one after the other
             if not lp.body or not isinstance(lp.body[0], ast.Assign) or len(lp.body) < 2:
                 continue
             st = lp.body[0]
@@ -359,6 +359,7 @@ def _canon_loop_unpack(tree):
             else:
                 lp.target.elts[lp.target.elts.index(hit[0])] = tup
             del lp.body[0]
+            fn._normalised_away = getattr(fn, "_normalised_away", set()) | {v}
 
 
 def _canon_loops(tree):
